@@ -292,3 +292,17 @@ def stretch_distribution_and_reversal(h):
     back, zb = s._EnsembleSampler__proposal(0)
     h.eq("reverse stretch == 1/z", zb * z, 1.0, tol=1e-7)
     h.eq("the move with stretch 1/z returns to X_i (reversible proposal)", back, X0[0], tol=1e-6)
+
+
+@unit("C01", quick=[dict(d=1, mass="scalar"), dict(d=2, mass="vector"), dict(d=2, mass="matrix")], thorough=[dict(d=3, mass="vector")])
+def hmc_momentum_law_matches_kinetic_energy(h, d, mass):
+    """the momenta are drawn from the Gaussian whose negative log-density is the kinetic energy used in the
+    accept test: kinetic_energy(sample_momentum(z)) == z.z/2 for standard normal z (same obligation as C07)"""
+    ev = mc.Events()
+    hmc, chain, post, grad, T, start, eps, im = mc.make_hmc(h, d, ev, mass=mass)
+    h.covers(type(chain.mass).sample_momentum, type(chain.mass).get_velocity, hmc.HamiltonianChain.kinetic_energy)
+    rng = stubs.SymRng(h, "mom")
+    r = chain.mass.sample_momentum(rng)
+    z = np.array([v for k, v in rng.log], dtype=object if h.sym else float)
+    h.same("one standard-normal draw per parameter", len(z), d)
+    h.eq("kinetic_energy(sample_momentum(z)) == z.z/2", chain.kinetic_energy(r), 0.5 * (z @ z))
